@@ -187,8 +187,9 @@ structure Handler where
   strf : Bytes := []
   encryptMetadata : Bool := true
 
-/-- `uint_value(x, 32)`. -/
-def uintValue32 (x : Int) : Nat := if x > 0 then x.toNat else (x + 4294967296).toNat
+/-- `uint_value(x, 32) & 0xFFFFFFFF` (init_params: "a 32-bit quantity, whatever integer the file
+    gives"): Python's `&` on a possibly negative int is the residue modulo 2^32. -/
+def uintValue32 (x : Int) : Nat := ((if x > 0 then x else x + 4294967296) % 4294967296).toNat
 
 def isPrintable (h : Handler) : Bool := h.p &&& PERM_MASK_PRINT != 0
 def isModifiable (h : Handler) : Bool := h.p &&& PERM_MASK_MODIFY != 0
@@ -244,13 +245,13 @@ def authOwner (P : Prims) (prm : Params) (length p : Nat) (pw : Bytes) : Option 
   authUser P prm length p (recoverUser P prm length pw)
 
 /-- `PDFStandardSecurityHandler.authenticate` (repaired: a non-Latin-1 password is incorrect).
-    `ZeroDivisionError`/`struct.error` are what Python raises for a zero-length key / `P = 0`. -/
+    `ZeroDivisionError` is what Python raises for a zero-length key (`Length < 8`); `p` is always
+    below 2^32 (see `uintValue32`), so `struct.pack("<L", p)` cannot fail. -/
 def authenticate234 (P : Prims) (prm : Params) (length p : Nat) (pw : List Nat) : Except Err Bytes :=
   match encodeLatin1 pw with
   | none => .error .passwordIncorrect
   | some b =>
-    if p ≥ 4294967296 then .error .structError
-    else if keyBytes prm.r length = 0 then .error .zeroDivision
+    if keyBytes prm.r length = 0 then .error .zeroDivision
     else match authUser P prm length p b with
       | some k => .ok k
       | none =>
@@ -270,8 +271,8 @@ def repeatBytes (bs : Bytes) : Nat → Bytes
 def r6Loop (P : Prims) (pw vec : Bytes) : Nat → Nat → Nat → Bytes → Option Bytes
   | 0, _, _, _ => none
   | fuel + 1, round, last, k =>
-    if round < 64 ∨ last + 32 > round then
-      let k1 := repeatBytes (pw ++ k ++ vec) 64
+    if r6_continue (round : Int) (last : Int) then
+      let k1 := repeatBytes (pw ++ k ++ vec) R6_REPEAT
       let e := P.aesEnc (k.take 16) ((k.drop 16).take 16) k1
       let m := bytesMod3 (e.take 16)
       let k' := if m = 0 then P.sha256 e else if m = 1 then P.sha384 e else P.sha512 e
